@@ -73,7 +73,7 @@ pub fn run_check(ctx: &Ctx) -> i32 {
         .set("rule", json!(format!("every history of at most {} operations of the C08 alphabet from a factory-fresh node and a node with one fabric, at most {} from a node with two fabrics; after every operation a fresh node is started from the store cut at every point inside the operation; at the end of every history: read-back equality, 9 damaged resumption blobs, factory reset", d1, d2)));
     ev.assume("write granularity is one store / remove call of the key-value interface (a call is atomic; torn writes inside a call are the store implementation's business)");
     ev.assume("binding, user-label and basic-information writes are not in the alphabet (the root-endpoint build of this harness has the fabric, ACL, group-key, label and network blobs)");
-    if states < 20 {
+    if report.violations.is_empty() && (states < 20) {
         eprintln!("MACHINERY: vacuous C11 run");
         return 2;
     }
